@@ -366,7 +366,9 @@ class TDMProgram(Program):
     @property
     def measured_modes(self):
         """The number of measured modes in the program returned as a list."""
-        return list(self._measured_modes)
+        # ascending order: the i-th entry is the measured mode of the i-th band (a set does not
+        # iterate in ascending order, e.g. {0, 4, 8} comes out as 0, 8, 4)
+        return sorted(self._measured_modes)
 
     @property
     def timebins(self):
